@@ -8,6 +8,7 @@ import tokenize
 from . import ops as O
 from .editsim import Plugin, StopRun, Violation, check_consistent, modifying_registry, plugin
 from .model import fdump, iter_paths, parse_full, path_str, sdump
+from . import progen
 from .progen import try_toks
 
 SOUP = ['x', 'y', 'zz', '1', "'s'", '+', '-', '*', '.', ',', '(', ')', '[', ']', ':', '=', ' ', '  ', '\n', '\n    ',
@@ -42,7 +43,14 @@ def stmt_units(tree, toks, src_blines=None):
     for node in ast.walk(tree):
         if not isinstance(node, (ast.stmt, ast.ExceptHandler, ast.match_case)):
             continue
-        start = (node.lineno, 0) if not hasattr(node, 'col_offset') else (node.lineno, node.col_offset)
+        if isinstance(node, ast.match_case):  # no position of its own: from its 'case' keyword
+            pat = node.pattern
+            kw = [t for t in sig if t.string == 'case' and t.start < (pat.lineno, pat.col_offset)]
+            if not kw:
+                continue
+            start = (kw[-1].start[0], 0)
+        else:
+            start = (node.lineno, node.col_offset)
         if getattr(node, 'decorator_list', None):
             start = (node.decorator_list[0].lineno, 0)
         body = getattr(node, 'body', None)
@@ -146,11 +154,21 @@ class C10(Plugin):
 
     def configure(self, rng):
         cfg = super().configure(rng)
+        cfg['p_mb_prefix'] = rng.choice([0.0, 0.0, 0.4, 0.8])
         cfg['p_safe'] = rng.choice([0.5, 0.7, 0.9])
         cfg['p_edit'] = rng.choice([0.0, 0.15])
         cfg['base_opts'] = {}
         cfg['max_lines'] = 30
         return cfg
+
+    def program(self, rng, cfg):
+        src = Plugin.program(self, rng, cfg)
+        if cfg.get('p_mb_prefix'):
+            new = progen.mb_prefix(rng, src, cfg['p_mb_prefix'])
+            if new != src:
+                self.run.stats['program_with_multibyte_prefixed_statements'] += 1
+            src = new
+        return src
 
     def gen_rect(self, rng, src, safe):
         toks = try_toks(src)
@@ -391,8 +409,11 @@ class C11(Plugin):
     def configure(self, rng):
         cfg = super().configure(rng)
         cfg['p_edit'] = rng.choice([0.0, 0.2, 0.4])
+        cfg['p_mb_prefix'] = rng.choice([0.0, 0.0, 0.4, 0.8])
         cfg['max_lines'] = 40
         return cfg
+
+    program = C10.program
 
     def gen_op(self, rng):
         run = self.run
